@@ -494,6 +494,7 @@ func runC12(c *Ctx) {
 	runC12PtrString(c)
 	runC12Shares5(c)
 	runC12DeterministicUnflatten(c)
+	runC12NoInterfaceEq(c)
 }
 
 func guardedNilValue(b *ssa.BasicBlock, v ssa.Value) bool {
